@@ -511,6 +511,10 @@ def _split_region(lines):
     return "\n".join(exec_lines), blocks
 
 
+_INTACT_BEFORE, _INTACT_AFTER = 12, 2
+_MOVE_MIN = 8  # tokens; shorter coincidences are not treated as moved code
+
+
 def _align(tmpl_toks, real_toks):
     """map template token position (0..len) -> real token position"""
     sm = difflib.SequenceMatcher(None, tmpl_toks, real_toks, autojunk=False)
@@ -520,12 +524,34 @@ def _align(tmpl_toks, real_toks):
         if tag == "equal":
             for d in range(i2 - i1):
                 matched_t[i1 + d] = j1 + d
+    # moved code: a span of template tokens without counterpart (delete / replace) that re-appears verbatim among the real tokens
+    # without counterpart (insert / replace) - swapped branches, reordered statements.  The annotations inside such a span move with it.
+    moved = {}  # template token index -> real token index
+    t_un = [(i1, i2) for tag, i1, i2, j1, j2 in ops if tag in ("delete", "replace") and i2 - i1 >= _MOVE_MIN]
+    r_un = [(j1, j2) for tag, i1, i2, j1, j2 in ops if tag in ("insert", "replace") and j2 - j1 >= _MOVE_MIN]
+    used = set()
+    for (i1, i2) in t_un:
+        best = None
+        for (j1, j2) in r_un:
+            m = difflib.SequenceMatcher(None, tmpl_toks[i1:i2], real_toks[j1:j2], autojunk=False).find_longest_match(0, i2 - i1, 0, j2 - j1)
+            if m.size >= _MOVE_MIN and (best is None or m.size > best[0]):
+                best = (m.size, i1 + m.a, j1 + m.b)
+        if best:
+            size, ta, rb = best
+            if not any((rb + d) in used for d in range(size)):
+                for d in range(size):
+                    moved[ta + d] = rb + d
+                    used.add(rb + d)
 
     def pos(i):
         if i - 1 in matched_t:
             return matched_t[i - 1] + 1
+        if i - 1 in moved:
+            return moved[i - 1] + 1
         if i in matched_t:
             return matched_t[i]
+        if i in moved:
+            return moved[i]
         for tag, i1, i2, j1, j2 in ops:
             if tag != "equal" and i1 <= i <= i2:
                 return j2
@@ -534,12 +560,26 @@ def _align(tmpl_toks, real_toks):
     def deleted(i):
         """the template token just before position i lies in a span of template tokens that has NO counterpart in the real text
         (an annotation block is attached to the code it follows: loop head -> invariants, `{` -> ghost lets, statement -> proof block)"""
+        if i - 1 in moved:
+            return False
         for tag, i1, i2, j1, j2 in ops:
             if tag == "delete" and i1 <= i - 1 < i2:
                 return True
         return False
 
+    def intact(i):
+        """the annotation block at template position i still sits in the same code: the _INTACT_BEFORE code tokens before it (the statement
+        it comments on) and the _INTACT_AFTER tokens after it are unchanged and contiguous in the real text"""
+        n = len(tmpl_toks)
+        lo, hi = max(0, i - _INTACT_BEFORE), min(n, i + _INTACT_AFTER)
+        if hi <= lo:
+            return True
+        if any(k not in matched_t for k in range(lo, hi)):
+            return False
+        return all(matched_t[k + 1] == matched_t[k] + 1 for k in range(lo, hi - 1))
+
     pos.deleted = deleted
+    pos.intact = intact
     return pos, ops
 
 
@@ -666,6 +706,10 @@ def expand(template_text, repo_root, read=None):
         identical = t_toks == r_toks
         inserts = {}
         dropped_blocks = []
+        # proof hints = annotation blocks INSIDE the body; the block in front of the body's opening brace is the contract itself
+        # (requires / ensures / the B1 header): a contract does not go stale when the body changes, so it is never counted as displaced
+        body_open = t_toks.index("{") if "{" in t_toks else len(t_toks)
+        displaced = [" ".join(ann.split())[:80] for (n_before, ann) in blocks if n_before > body_open and not pos.intact(n_before)]
         for (n_before, ann) in blocks:
             if n_before == len(t_toks) - 1 and len(r_tokobjs) >= 1:
                 # an annotation block right before the closing token of the item (a final obligation): it stays right before the closing
@@ -693,5 +737,7 @@ def expand(template_text, repo_root, read=None):
         report.append({"item": "%s %s" % (kw, name), "file": path, "line": item.line, "impl": attrs.get("impl"),
                        "sha256": hashlib.sha256(item.text.encode()).hexdigest()[:16], "tokens": len(r_toks),
                        "annotation_blocks": len(blocks), "rules": fired, "identical": identical, "differences": diffs[:20],
-                       "annotation_blocks_dropped_with_deleted_code": dropped_blocks})
+                       "annotation_blocks_dropped_with_deleted_code": dropped_blocks,
+                       # blocks whose neighbouring code tokens changed: the proof hints may no longer say what they said (see DESIGN 11.13)
+                       "annotation_blocks_displaced": len(displaced), "displaced_sample": displaced[:4]})
     return "\n".join(out), report
